@@ -212,11 +212,17 @@ package dispatcher
 //@   loop 0 invariant[C17] amtKeysDistinctG(g) ==> forall j int trigger(g.DispatchedAmounts[j]) :: 0 <= j && j < idx ==> amt_has[d.dispatchedAmounts][amtKeyOf(g.DispatchedAmounts[j])] && amt_val[d.dispatchedAmounts][amtKeyOf(g.DispatchedAmounts[j])] == g.DispatchedAmounts[j].AmountDispatched
 //   the totals invariant (non-nil, non-negative) is carried through the import: base case of the induction over updates
 //@   loop 0 invariant[C17] old(amtWF(d)) ==> amtWF(d)
+//   nothing but the listed entries is added ("exactly the listed content"): every key present now was present before or is the key of a listed entry
+//@   loop 0 invariant[C17] forall q T_cosmossdk_io_collections_Quad_int32_string_string_string_ trigger(amt_has[d.dispatchedAmounts][q]) :: amt_has[d.dispatchedAmounts][q] ==> old(amt_has)[d.dispatchedAmounts][q] || (exists j int :: 0 <= j && j < idx && q == amtKeyOf(g.DispatchedAmounts[j]))
 //@   loop 1 invariant[C17] cntEntriesOK(g)
+//@   loop 1 invariant[C17] forall q T_cosmossdk_io_collections_Quad_int32_string_string_string_ trigger(amt_has[d.dispatchedAmounts][q]) :: amt_has[d.dispatchedAmounts][q] ==> old(amt_has)[d.dispatchedAmounts][q] || (exists j int :: 0 <= j && j < len(g.DispatchedAmounts) && q == amtKeyOf(g.DispatchedAmounts[j]))
+//@   loop 1 invariant[C17] forall q T_cosmossdk_io_collections_Quad_int32_string_int32_string_ trigger(cnt_has[d.dispatchedCounts][q]) :: cnt_has[d.dispatchedCounts][q] ==> old(cnt_has)[d.dispatchedCounts][q] || (exists j int :: 0 <= j && j < idx && q == cntKeyOf(g.DispatchedCounts[j]))
 //@   loop 1 invariant[C17] old(amtWF(d)) ==> amtWF(d)
 //@   loop 1 invariant[C17] cntKeysDistinctG(g) ==> forall j int trigger(g.DispatchedCounts[j]) :: 0 <= j && j < idx ==> cnt_has[d.dispatchedCounts][cntKeyOf(g.DispatchedCounts[j])] && cnt_val[d.dispatchedCounts][cntKeyOf(g.DispatchedCounts[j])] == g.DispatchedCounts[j].Count
 //@   ensures[C17] err == nil
 //@   ensures[C17] old(amtWF(d)) ==> amtWF(d)
+//@   ensures[C17] forall q T_cosmossdk_io_collections_Quad_int32_string_string_string_ trigger(amt_has[d.dispatchedAmounts][q]) :: amt_has[d.dispatchedAmounts][q] ==> old(amt_has)[d.dispatchedAmounts][q] || (exists j int :: 0 <= j && j < len(g.DispatchedAmounts) && q == amtKeyOf(g.DispatchedAmounts[j]))
+//@   ensures[C17] forall q T_cosmossdk_io_collections_Quad_int32_string_int32_string_ trigger(cnt_has[d.dispatchedCounts][q]) :: cnt_has[d.dispatchedCounts][q] ==> old(cnt_has)[d.dispatchedCounts][q] || (exists j int :: 0 <= j && j < len(g.DispatchedCounts) && q == cntKeyOf(g.DispatchedCounts[j]))
 //   content (for a genesis whose entries have pairwise different keys, as every exported genesis has): every listed entry is stored under its key
 //@   ensures[C17] amtKeysDistinctG(g) ==> forall j int trigger(g.DispatchedAmounts[j]) :: 0 <= j && j < len(g.DispatchedAmounts) ==> amt_has[d.dispatchedAmounts][amtKeyOf(g.DispatchedAmounts[j])] && amt_val[d.dispatchedAmounts][amtKeyOf(g.DispatchedAmounts[j])] == g.DispatchedAmounts[j].AmountDispatched
 //@   ensures[C17] cntKeysDistinctG(g) ==> forall j int trigger(g.DispatchedCounts[j]) :: 0 <= j && j < len(g.DispatchedCounts) ==> cnt_has[d.dispatchedCounts][cntKeyOf(g.DispatchedCounts[j])] && cnt_val[d.dispatchedCounts][cntKeyOf(g.DispatchedCounts[j])] == g.DispatchedCounts[j].Count
